@@ -52,6 +52,12 @@ type c10Case struct {
 	Conc   []c10Conc `json:"conc,omitempty"`
 	Delays []int64   `json:"delays,omitempty"`
 	Late   bool      `json:"late,omitempty"` // concurrent events fire after the API call was started (else before)
+	// Arm: the (ArmSkip+1)-th call of the named schedule point from the stop burst on busy-waits
+	// ArmD x 4 us (e.g. fsm.enter: the FSM is held between the peer manager's approval of a
+	// transition and the entry into the new state's function)
+	ArmPoint string `json:"arm_point,omitempty"`
+	ArmSkip  int    `json:"arm_skip,omitempty"`
+	ArmD     int64  `json:"arm_d,omitempty"`
 }
 
 func c10Spec(i int, p c10Peer) world.PeerSpec {
@@ -138,7 +144,11 @@ func c10Prop(t *testing.T, r *hx.Run, sub string) func(c c10Case) hx.Verdict {
 			}
 		}
 		o := world.Run(t, func() {
-			w, err := world.New("10.0.0.1", c.Delays)
+			delays := c.Delays
+			if len(delays) == 0 && c.ArmPoint != "" {
+				delays = []int64{0}
+			}
+			w, err := world.New("10.0.0.1", delays)
 			if err != nil {
 				fail("setup", "%v", err)
 				return
@@ -320,6 +330,9 @@ func c10Prop(t *testing.T, r *hx.Run, sub string) func(c c10Case) hx.Verdict {
 					w.Net.WaitDials(len(w.Net.Dials())+1, 20*time.Second)
 					break
 				}
+			}
+			if c.ArmPoint != "" {
+				w.Arm(c.ArmPoint, c.ArmSkip, c.ArmD)
 			}
 			burstStart := w.Net.NextSeq()
 			fireConc := func() {
@@ -716,6 +729,31 @@ func TestC10(t *testing.T) {
 			}
 		}
 	}, c10Prop(t, r, "every_point_x_api"))
+
+	// the stop arrives while a connection makes legal progress, with the FSM held between the peer
+	// manager's approval of the transition and the entry into the new state (and at the other points)
+	hx.Enum(r, t, "stop_while_entering_a_state", 0, func(yield func(c10Case) bool) {
+		type pe struct {
+			park string
+			conc c10Conc
+		}
+		for _, x := range []pe{
+			{"openconfirm-in", c10Conc{Kind: "keepalive", Peer: 0, Dir: "in"}}, {"openconfirm-out", c10Conc{Kind: "keepalive", Peer: 0, Dir: "out"}},
+			{"opensent-in", c10Conc{Kind: "open", Peer: 0, Dir: "in"}}, {"opensent-out", c10Conc{Kind: "open", Peer: 0, Dir: "out"}},
+		} {
+			for _, api := range []string{"close", "del"} {
+				for _, pt := range []string{"fsm.enter", "fsm.transition", "peer.loop"} {
+					for skip := 0; skip < 3; skip++ {
+						for _, d := range []int64{10, 50, 150} {
+							if !yield(c10Case{Peers: []c10Peer{{Park: x.park}}, API: api, Conc: []c10Conc{x.conc}, ArmPoint: pt, ArmSkip: skip, ArmD: d}) {
+								return
+							}
+						}
+					}
+				}
+			}
+		}
+	}, c10Prop(t, r, "stop_while_entering_a_state"))
 
 	// the stop arrives at the instant a timer launches the next (successful) dial,
 	// with the FSM / the peer manager held at their schedule points for a while
